@@ -57,7 +57,7 @@ func LoadEngine(repo string, patterns []string) (*Engine, error) {
 	if len(errs) > 0 {
 		return nil, fmt.Errorf("load errors:\n%s", strings.Join(errs, "\n"))
 	}
-	prog, spkgs := ssautil.AllPackages(pkgs, ssa.InstantiateGenerics)
+	prog, spkgs := ssautil.AllPackages(pkgs, ssa.InstantiateGenerics|ssa.GlobalDebug)
 	prog.Build()
 	e := &Engine{repo: repo, prog: prog, pkgs: pkgs, ssaPkgs: map[string]*ssa.Package{}, tags: NewTypeTags(),
 		strIDs: map[string]int64{}, strByID: map[int64]string{}, globals: map[*ssa.Global]int64{}, gByObj: map[types.Object]*ssa.Global{},
